@@ -284,7 +284,16 @@ func oneTx(lab *atlab.Lab, schema *atlab.Schema, seed int64) (outcome string) {
 	}
 }
 
-var frameRE = regexp.MustCompile(`^\s+(/repo/[^\s:]+):(\d+)`)
+// frames of the repository's code: /repo, or the scratch tree named by VERIF_REPO (tools/try_mutant_alt.sh)
+var frameRE = regexp.MustCompile(`^\s+(` + regexp.QuoteMeta(repoDir()) + `/[^\s:]+):(\d+)`)
+
+func repoDir() string {
+	if d := os.Getenv("VERIF_REPO"); d != "" {
+		return strings.TrimRight(d, "/")
+	}
+	return "/repo"
+}
+
 var funcRE = regexp.MustCompile(`^\s+seata\.apache\.org/seata-go/(\S+?)\(`)
 
 // raceReports parses the race detector's log (GORACE=log_path=...) into distinct signatures:
